@@ -93,6 +93,7 @@ class Ctx:
         self.events = []          # [tick, id, ctl, stamp, result, periodAfter, phase]
         self.tick = 0
         self.nsend = 0
+        self.seen = 0             # calls of the first store's changeStamp in the current run()
 
     def num(self, s):
         """case number -> the Python number handed to ioflo"""
@@ -195,11 +196,10 @@ def build(case, ctx=None, tasker_factory=None):
     if sk.houses:
         st0 = sk.houses[0].store
         orig = st0.changeStamp
-        seen = [0]
 
         def counting(stamp, _orig=orig):
-            seen[0] += 1
-            if seen[0] > 1:
+            ctx.seen += 1
+            if ctx.seen > 1:
                 ctx.tick += 1
                 if ctx.tick >= core_fuel():
                     raise Budget("tick budget exceeded")
@@ -208,6 +208,26 @@ def build(case, ctx=None, tasker_factory=None):
                     hook(ctx.tick - 1)
             return _orig(stamp)
         st0.changeStamp = counting
+
+    class Runner:
+        """around tasker.runner: a send to a generator that has already finished raises StopIteration without
+        running any tasker code, so it is recorded here"""
+
+        def __init__(self, t):
+            self.t, self.gen = t, t.runner
+
+        def send(self, c):
+            if self.gen.gi_frame is None:
+                t = self.t
+                ctx.events.append([ctx.tick, t.tid, c, t.store.stamp, "stop", t.period, caller_phase()])
+            return self.gen.send(c)
+
+        def close(self):
+            return self.gen.close()
+
+    ctx.Runner = Runner
+    for t in taskers:
+        t.runner = Runner(t)
     return sk, taskers, ctx
 
 
@@ -216,25 +236,39 @@ def core_fuel():
 
 
 def run_case(case, tasker_factory=None, prepare=None):
-    """run the real scheduler; canonical lines: outcome, one line per send, aborted ids"""
+    """run the real scheduler; canonical lines: outcome, one line per send, aborted ids, pass count.
+    With "reruns" in the case the SAME Skedder is run again (after `remake()` of the listed taskers) and the
+    lines of each run follow a line `run <k>`."""
     sk, taskers, ctx = build(case, tasker_factory=tasker_factory)
     if prepare:
         prepare(sk, taskers, ctx)
-    try:
-        sk.run()
-        outcome = "returned"
-    except core.HarnessTimeout:
-        raise
-    except Budget:
-        outcome = "fuel"
-    except BaseException as ex:
-        outcome = "raised " + exc_name(ex)
-    lines = [outcome]
-    for tick, tid, ctl, stamp, res, per, ph in ctx.events:
-        lines.append("%s %d %d %s %s %s %s" % (ph, tick, tid, ctl if ctl in (0, 1, 2, 3, 4) else 5, ctx.show(stamp),
-                                                res, ctx.show(per) if per is not None else "?"))
-    lines.append("aborted " + " ".join(str(t.tid) for t, _, _ in sk.aborted))
-    lines.append("ticks %d" % ctx.tick)
+    again = case.get("reruns")
+    lines = []
+    for k, remake in enumerate([None] + list(again or [])):
+        if remake is not None:
+            for i in remake:
+                taskers[i].remake()
+                taskers[i].runner = ctx.Runner(taskers[i])
+            ctx.events, ctx.tick, ctx.seen, ctx.nsend = [], 0, 0, 0
+        try:
+            sk.run()
+            outcome = "returned"
+        except core.HarnessTimeout:
+            raise
+        except Budget:
+            outcome = "fuel"
+        except BaseException as ex:
+            outcome = "raised " + exc_name(ex)
+        if again is not None:
+            lines.append("run %d" % k)
+        lines.append(outcome)
+        for tick, tid, ctl, stamp, res, per, ph in ctx.events:
+            lines.append("%s %d %d %s %s %s %s" % (ph, tick, tid, ctl if ctl in (0, 1, 2, 3, 4) else 5, ctx.show(stamp),
+                                                    res, ctx.show(per) if per is not None else "?"))
+        lines.append("aborted " + " ".join(str(t.tid) for t, _, _ in sk.aborted))
+        lines.append("ticks %d" % ctx.tick)
+        if outcome == "fuel":
+            break
     return lines
 
 
@@ -279,6 +313,11 @@ def config_toks(case, mode):
 
 
 def run_request(case):
+    if case.get("reruns") is not None:
+        again = [str(len(case["reruns"]))]
+        for ids in case["reruns"]:
+            again += [str(len(ids))] + [str(i) for i in ids]
+        return "runs %s %d %s %s" % (case["mode"], FUEL, " ".join(config_toks(case, case["mode"])), " ".join(again))
     return "run %s %d %s" % (case["mode"], FUEL, " ".join(config_toks(case, case["mode"])))
 
 
@@ -291,9 +330,7 @@ def drift_request(case):
     return "drift %d %s @ %s" % (FUEL, " ".join(config_toks(case, "f")), " ".join(config_toks(case, "x")))
 
 
-def parse_reply(reply):
-    """driver reply -> the same canonical lines as run_case (the reason of a normal return is dropped:
-    the implementation cannot observe it)"""
+def parse_one(reply):
     if " | " not in reply:
         return [reply]
     head, evs, ab, ticks = reply.split(" | ")
@@ -305,4 +342,19 @@ def parse_reply(reply):
             lines.append(" ".join(e.split()))
     lines.append(ab)
     lines.append(ticks)
+    return lines
+
+
+def parse_reply(reply, multi=False):
+    """driver reply -> the same canonical lines as run_case (the reason of a normal return is dropped:
+    the implementation cannot observe it)"""
+    if not multi:
+        return parse_one(reply)
+    lines = []
+    for k, part in enumerate(reply.split(" || ")):
+        one = parse_one(part)
+        lines.append("run %d" % k)
+        lines += one
+        if one and one[0] == "fuel":
+            break
     return lines
